@@ -108,6 +108,12 @@ def digits_ok(token, maxlen):
 # ----------------------------------------------------------------- (c)
 
 
+# 'a', blank, newline and characters that str.splitlines() / universal
+# newlines treat as line ends but the parser does not (lines are counted by
+# '\n' only)
+LINE_ALPHABET = 'a \n\r\x0c\x85\u2028'
+
+
 def check_line_col(text, off):
     from qbee.utils import convert_index_to_line_col
     try:
